@@ -226,6 +226,23 @@ func checkTableAgainstModel(tab ion.SymbolTable, ref *refbin.SymTab, texts []str
 			return fmt.Sprintf("NewSymbolToken(%q)=%v,%v want SID %d", text, tok, err, want)
 		}
 	}
+	// NewSymbolTokens is NewSymbolToken for each text, in order; tokens are Equal
+	// exactly when their texts are
+	toks, err := ion.NewSymbolTokens(tab, texts)
+	if err != nil || len(toks) != len(texts) {
+		return fmt.Sprintf("NewSymbolTokens(%q) = %d tokens, %v", texts, len(toks), err)
+	}
+	for i, text := range texts {
+		one, _ := ion.NewSymbolToken(tab, text)
+		if toks[i].Text == nil || *toks[i].Text != text || toks[i].LocalSID != one.LocalSID {
+			return fmt.Sprintf("NewSymbolTokens(...)[%d] = %s, NewSymbolToken(%q) = %s", i, toks[i].String(), text, one.String())
+		}
+		for j := range texts {
+			if eq := toks[i].Equal(&toks[j]); eq != (texts[i] == texts[j]) {
+				return fmt.Sprintf("SymbolToken.Equal(%s, %s) = %v", toks[i].String(), toks[j].String(), eq)
+			}
+		}
+	}
 	return ""
 }
 
